@@ -195,6 +195,25 @@ type BlockOpt struct {
 	Version int32
 	// Break names a rule to violate (see breakers in this file); "" = valid.
 	Break string
+	// AbsTime, when non-zero, is the block timestamp (overrides TimeDelta).
+	AbsTime int64
+	// CoinbaseScriptSuffix is appended to the coinbase signature script
+	// after the height push and extra nonce; CoinbaseScript, when non-nil,
+	// replaces the whole signature script.
+	CoinbaseScriptSuffix []byte
+	CoinbaseScript       []byte
+	// ExtraCoinbaseOuts are appended after the default paying output.
+	ExtraCoinbaseOuts []*wire.TxOut
+	// ForceCommitment adds a witness commitment even without witness data.
+	ForceCommitment bool
+	// NoCommitment suppresses the witness commitment.
+	NoCommitment bool
+	// Mutate is applied to the finished block (before the proof of work is
+	// solved). A mutated block must be labelled with Label/Rule; the model
+	// state after it is only kept when Label is Valid.
+	Mutate func(msg *wire.MsgBlock)
+	Label  Validity
+	Rule   string
 }
 
 // Subsidy is the model block subsidy.
@@ -277,6 +296,40 @@ func ApplyTx(u UtxoSet, tx *wire.MsgTx, height int32, coinbase bool) ([]Coin, bo
 }
 
 // merkleRoot is the model's txid merkle root (duplicate-last rule).
+// MerkleRoot is the model's txid merkle root.
+func MerkleRoot(txs []*wire.MsgTx) chainhash.Hash { return merkleRoot(txs) }
+
+// WitnessCommitmentScript returns the coinbase output script committing to
+// the witness merkle root of txs (coinbase wtxid = zero) with the nonce.
+func WitnessCommitmentScript(txs []*wire.MsgTx, nonce []byte) []byte {
+	level := make([][32]byte, len(txs))
+	for i, tx := range txs {
+		if i > 0 {
+			level[i] = tx.WitnessHash()
+		}
+	}
+	for len(level) > 1 {
+		if len(level)%2 == 1 {
+			level = append(level, level[len(level)-1])
+		}
+		next := make([][32]byte, len(level)/2)
+		for i := range next {
+			var buf [64]byte
+			copy(buf[:32], level[2*i][:])
+			copy(buf[32:], level[2*i+1][:])
+			a := sha256.Sum256(buf[:])
+			next[i] = sha256.Sum256(a[:])
+		}
+		level = next
+	}
+	var pre [64]byte
+	copy(pre[:32], level[0][:])
+	copy(pre[32:], nonce)
+	a := sha256.Sum256(pre[:])
+	c := sha256.Sum256(a[:])
+	return append([]byte{0x6a, 0x24, 0xaa, 0x21, 0xa9, 0xed}, c[:]...)
+}
+
 func merkleRoot(txs []*wire.MsgTx) chainhash.Hash {
 	level := make([][32]byte, len(txs))
 	for i, tx := range txs {
@@ -331,6 +384,9 @@ func Solve(h *wire.BlockHeader, wantFail bool) { SolveFrom(h, wantFail, 0) }
 // SolveFrom is Solve starting the nonce search at start.
 func SolveFrom(h *wire.BlockHeader, wantFail bool, start uint32) {
 	target := compactToBig(h.Bits)
+	if target.Sign() <= 0 {
+		return // no hash can meet a zero or negative target
+	}
 	for n := start; ; n++ {
 		h.Nonce = n
 		hash := h.BlockHash()
@@ -354,7 +410,10 @@ func (t *Tree) Extend(parent *Node, opt BlockOpt) *Node {
 	if parent.Parent == nil && ts < T0 {
 		ts = T0
 	}
-	if t.Family == FamWork && opt.TimeDelta == 0 {
+	if opt.AbsTime != 0 {
+		ts = opt.AbsTime
+	}
+	if t.Family == FamWork && opt.TimeDelta == 0 && opt.AbsTime == 0 {
 		if opt.Hard {
 			ts = parent.Time() + 1
 		} else {
@@ -416,6 +475,10 @@ func (t *Tree) Extend(parent *Node, opt BlockOpt) *Node {
 		script = append(script, 0x08)
 		script = append(script, en[:]...)
 	}
+	script = append(script, opt.CoinbaseScriptSuffix...)
+	if opt.CoinbaseScript != nil {
+		script = opt.CoinbaseScript
+	}
 	cb.AddTxIn(&wire.TxIn{PreviousOutPoint: wire.OutPoint{Index: 0xffffffff}, SignatureScript: script, Sequence: 0xffffffff})
 	if opt.CoinbaseOuts != nil {
 		for _, o := range opt.CoinbaseOuts {
@@ -429,7 +492,21 @@ func (t *Tree) Extend(parent *Node, opt BlockOpt) *Node {
 		}
 		cb.AddTxOut(&wire.TxOut{Value: v, PkScript: OpTrue})
 	}
+	for _, o := range opt.ExtraCoinbaseOuts {
+		cb.AddTxOut(o)
+	}
 	txs := append([]*wire.MsgTx{cb}, opt.Txs...)
+	hasWitness := false
+	for _, tx := range opt.Txs {
+		if tx.HasWitness() {
+			hasWitness = true
+		}
+	}
+	if (hasWitness || opt.ForceCommitment) && !opt.NoCommitment {
+		nonce := make([]byte, 32)
+		cb.TxIn[0].Witness = wire.TxWitness{nonce}
+		cb.AddTxOut(&wire.TxOut{Value: 0, PkScript: WitnessCommitmentScript(txs, nonce)})
+	}
 	ver := opt.Version
 	if ver == 0 {
 		ver = 0x20000000
@@ -442,6 +519,12 @@ func (t *Tree) Extend(parent *Node, opt BlockOpt) *Node {
 	wantFail := false
 	if opt.Break != "" {
 		wantFail = t.applyBreak(n, opt.Break)
+	}
+	if opt.Mutate != nil {
+		opt.Mutate(msg)
+		n.Self, n.Rule = opt.Label, opt.Rule
+	} else if opt.Rule != "" && opt.Break == "" {
+		n.Self, n.Rule = opt.Label, opt.Rule
 	}
 	Solve(&msg.Header, wantFail)
 	n.Hash = msg.Header.BlockHash()
